@@ -1,1 +1,337 @@
-fn main() {}
+//! Litmus programs for Miri (C11: no deadlock / lost wakeup, C15: updates happen-before the
+//! reads that observe them; also C03/C04: Miri reports use-after-free and leaks).
+//!
+//! The threads of a program communicate ONLY through the map: no ledger, no shared clock, no
+//! channel — anything else would add happens-before edges that could hide a missing one inside
+//! flurry. Keys and values carry heap payloads that are initialised right before they are stored
+//! and are read (non-atomically) by whoever obtains them from the map; Miri's race detector
+//! flags a read that is not ordered after the initialisation.
+//!
+//! usage: litmus <program> <hasher mode> <capacity> <prefill> <ops per thread>
+//! prints `LITMUS-OK {json}` when the program ran to completion.
+use flurry::HashMap;
+use fv::hashers::HB;
+use std::hash::{Hash, Hasher};
+use std::sync::Arc;
+
+#[derive(Debug)]
+struct K {
+    k: u64,
+    /// [k, writer tag]
+    pay: Box<[u64; 2]>,
+}
+impl Clone for K {
+    fn clone(&self) -> K {
+        // the map clones keys while moving bins: the clone reads the payload, too
+        K { k: self.k, pay: Box::new([self.pay[0], self.pay[1]]) }
+    }
+}
+impl PartialEq for K {
+    fn eq(&self, o: &K) -> bool {
+        self.k == o.k
+    }
+}
+impl Eq for K {}
+impl PartialOrd for K {
+    fn partial_cmp(&self, o: &K) -> Option<std::cmp::Ordering> {
+        Some(self.cmp(o))
+    }
+}
+impl Ord for K {
+    fn cmp(&self, o: &K) -> std::cmp::Ordering {
+        self.k.cmp(&o.k)
+    }
+}
+impl Hash for K {
+    fn hash<H: Hasher>(&self, h: &mut H) {
+        h.write_u64(self.k)
+    }
+}
+fn key(k: u64, tag: u64) -> K {
+    K { k, pay: Box::new([k, tag]) }
+}
+type V = Box<[u64; 4]>;
+fn val(v: u64, tag: u64) -> V {
+    Box::new([v, !v, tag, v ^ tag])
+}
+
+#[derive(Default, Clone, Copy)]
+struct Stats {
+    /// payloads written by another thread that this thread read, per retrieval path
+    get: u64,
+    get_kv: u64,
+    iter: u64,
+    keys: u64,
+    values: u64,
+    insert_old: u64,
+    remove: u64,
+    remove_entry: u64,
+    compute_arg: u64,
+    try_insert_current: u64,
+    retain_arg: u64,
+    sum: u64,
+}
+impl Stats {
+    fn add(&mut self, o: &Stats) {
+        self.get += o.get;
+        self.get_kv += o.get_kv;
+        self.iter += o.iter;
+        self.keys += o.keys;
+        self.values += o.values;
+        self.insert_old += o.insert_old;
+        self.remove += o.remove;
+        self.remove_entry += o.remove_entry;
+        self.compute_arg += o.compute_arg;
+        self.try_insert_current += o.try_insert_current;
+        self.retain_arg += o.retain_arg;
+        self.sum = self.sum.wrapping_add(o.sum);
+    }
+    fn total(&self) -> u64 {
+        self.get + self.get_kv + self.iter + self.keys + self.values + self.insert_old + self.remove + self.remove_entry + self.compute_arg + self.try_insert_current + self.retain_arg
+    }
+}
+
+/// Reads the whole payload (this is the racy access if publication is broken) and says whether
+/// another thread wrote it.
+fn chk_v(v: &V, me: u64, s: &mut u64) -> bool {
+    assert_eq!(v[0], !v[1], "torn or uninitialised value payload");
+    assert_eq!(v[3], v[0] ^ v[2], "torn or uninitialised value payload");
+    *s = s.wrapping_add(v[0]);
+    // written by another worker thread (tag 0 = prefill by the main thread before the spawn)
+    v[2] != me && v[2] != 0
+}
+fn chk_k(k: &K, me: u64, s: &mut u64) -> bool {
+    assert_eq!(k.pay[0], k.k, "torn or uninitialised key payload");
+    *s = s.wrapping_add(k.pay[0]);
+    k.pay[1] != me && k.pay[1] != 0
+}
+
+type M = HashMap<K, V, HB>;
+
+fn writer_a(m: &M, me: u64, span: u64, ops: u64) -> Stats {
+    let mut st = Stats::default();
+    for i in 0..ops {
+        let g = m.guard();
+        let k = (i * 3) % span;
+        let v = 1000 * me + i;
+        match i % 3 {
+            0 => {
+                if let Some(o) = m.insert(key(k, me), val(v, me), &g) {
+                    st.insert_old += chk_v(o, me, &mut st.sum) as u64;
+                }
+            }
+            1 => {
+                if let Err(e) = m.try_insert(key(k + 1, me), val(v, me), &g) {
+                    st.try_insert_current += chk_v(e.current, me, &mut st.sum) as u64;
+                    let mut x = 0;
+                    assert!(!chk_v(&e.not_inserted, me, &mut x), "refused value came back changed");
+                }
+            }
+            _ => {
+                let mut other = false;
+                let mut sum = 0;
+                m.compute_if_present(
+                    &key(k, me),
+                    |kk, c| {
+                        other |= chk_k(kk, me, &mut sum);
+                        other |= chk_v(c, me, &mut sum);
+                        Some(val(c[0] + 1, me))
+                    },
+                    &g,
+                );
+                st.compute_arg += other as u64;
+                st.sum = st.sum.wrapping_add(sum);
+            }
+        }
+    }
+    st
+}
+
+fn writer_b(m: &M, me: u64, span: u64, ops: u64) -> Stats {
+    let mut st = Stats::default();
+    for i in 0..ops {
+        let g = m.guard();
+        let k = (i * 5 + 1) % span;
+        if i % 2 == 0 {
+            if let Some(o) = m.remove(&key(k, me), &g) {
+                st.remove += chk_v(o, me, &mut st.sum) as u64;
+            }
+        } else if let Some((kk, o)) = m.remove_entry(&key(k, me), &g) {
+            let a = chk_k(kk, me, &mut st.sum);
+            let b = chk_v(o, me, &mut st.sum);
+            st.remove_entry += (a || b) as u64;
+        }
+    }
+    st
+}
+
+fn reader(m: &M, me: u64, span: u64, ops: u64) -> Stats {
+    let mut st = Stats::default();
+    for i in 0..ops {
+        let g = m.guard();
+        match i % 4 {
+            0 => {
+                if let Some(v) = m.get(&key(i % span, me), &g) {
+                    st.get += chk_v(v, me, &mut st.sum) as u64;
+                }
+            }
+            1 => {
+                if let Some((kk, v)) = m.get_key_value(&key((i * 7) % span, me), &g) {
+                    let a = chk_k(kk, me, &mut st.sum);
+                    let b = chk_v(v, me, &mut st.sum);
+                    st.get_kv += (a || b) as u64;
+                }
+            }
+            2 => {
+                for (kk, v) in m.iter(&g) {
+                    let a = chk_k(kk, me, &mut st.sum);
+                    let b = chk_v(v, me, &mut st.sum);
+                    st.iter += (a || b) as u64;
+                }
+            }
+            _ => {
+                for kk in m.keys(&g) {
+                    st.keys += chk_k(kk, me, &mut st.sum) as u64;
+                }
+                for v in m.values(&g) {
+                    st.values += chk_v(v, me, &mut st.sum) as u64;
+                }
+            }
+        }
+    }
+    st
+}
+
+fn maintainer(m: &M, me: u64, ops: u64) -> Stats {
+    let mut st = Stats::default();
+    for i in 0..(ops / 2).max(2) {
+        let g = m.guard();
+        let mut other = 0u64;
+        let mut sum = 0u64;
+        match i % 4 {
+            0 => m.retain(
+                |kk, v| {
+                    other += (chk_k(kk, me, &mut sum) | chk_v(v, me, &mut sum)) as u64;
+                    kk.k % 3 != 0
+                },
+                &g,
+            ),
+            1 => m.reserve(8 + i as usize * 8, &g),
+            2 => m.retain_force(
+                |kk, v| {
+                    other += (chk_k(kk, me, &mut sum) | chk_v(v, me, &mut sum)) as u64;
+                    kk.k % 5 != 0
+                },
+                &g,
+            ),
+            _ => m.clear(&g),
+        }
+        st.retain_arg += other;
+        st.sum = st.sum.wrapping_add(sum);
+    }
+    st
+}
+
+/// grows the table through several generations while others read and write
+fn grower(m: &M, me: u64, base: u64, ops: u64) -> Stats {
+    let mut st = Stats::default();
+    for i in 0..ops {
+        let g = m.guard();
+        if let Some(o) = m.insert(key(base + i, me), val(i, me), &g) {
+            st.insert_old += chk_v(o, me, &mut st.sum) as u64;
+        }
+    }
+    st
+}
+
+fn main() {
+    let a: Vec<String> = std::env::args().collect();
+    if a.len() < 6 {
+        eprintln!("usage: litmus <program> <mode> <cap> <prefill> <ops>");
+        std::process::exit(2);
+    }
+    let prog = a[1].as_str();
+    let mode: u8 = a[2].parse().unwrap();
+    let cap: usize = a[3].parse().unwrap();
+    let pre: u64 = a[4].parse().unwrap();
+    let ops: u64 = a[5].parse().unwrap();
+    let map: M = if cap == 0 { HashMap::with_hasher(HB::new(mode)) } else { HashMap::with_capacity_and_hasher(cap, HB::new(mode)) };
+    let m: Arc<M> = Arc::new(map.with_collector(seize::Collector::new().batch_size(1)));
+    {
+        let g = m.guard();
+        for i in 0..pre {
+            m.insert(key(i, 0), val(i, 0), &g);
+        }
+    }
+    let span = pre + 6;
+    let mut hs: Vec<std::thread::JoinHandle<Stats>> = Vec::new();
+    macro_rules! spawn {
+        ($f:expr) => {{
+            let m = m.clone();
+            hs.push(std::thread::spawn(move || $f(&m)));
+        }};
+    }
+    match prog {
+        // inserter/computer, remover, pure reader
+        "mix3" => {
+            spawn!(|m: &M| writer_a(m, 1, span, ops));
+            spawn!(|m: &M| writer_b(m, 2, span, ops));
+            spawn!(|m: &M| reader(m, 3, span, ops));
+        }
+        // + retain / retain_force / clear / reserve
+        "mix4" => {
+            spawn!(|m: &M| writer_a(m, 1, span, ops));
+            spawn!(|m: &M| writer_b(m, 2, span, ops));
+            spawn!(|m: &M| reader(m, 3, span, ops));
+            spawn!(|m: &M| maintainer(m, 4, ops));
+        }
+        // two writers, two readers on one bin
+        "readers" => {
+            spawn!(|m: &M| writer_a(m, 1, span, ops));
+            spawn!(|m: &M| reader(m, 2, span, ops));
+            spawn!(|m: &M| reader(m, 3, span, ops));
+            spawn!(|m: &M| writer_b(m, 4, span, ops));
+        }
+        // table initialisation race: every thread's first call hits the empty map
+        "init" => {
+            spawn!(|m: &M| grower(m, 1, 0, ops));
+            spawn!(|m: &M| grower(m, 2, 100, ops));
+            spawn!(|m: &M| { let g = m.guard(); m.reserve(3, &g); drop(g); reader(m, 3, 12, ops) });
+            spawn!(|m: &M| writer_a(m, 4, 8, ops));
+        }
+        // growth through several generations under readers and a remover
+        "grow" => {
+            spawn!(|m: &M| grower(m, 1, 0, ops * 2));
+            spawn!(|m: &M| grower(m, 2, 1000, ops * 2));
+            spawn!(|m: &M| reader(m, 3, ops * 2, ops));
+            spawn!(|m: &M| writer_b(m, 4, ops * 2, ops));
+        }
+        _ => {
+            eprintln!("unknown program {prog}");
+            std::process::exit(2);
+        }
+    }
+    let mut tot = Stats::default();
+    for h in hs {
+        tot.add(&h.join().unwrap());
+    }
+    let len = m.len();
+    // a final single-threaded walk (after join: ordered after everything)
+    {
+        let g = m.guard();
+        let mut s = 0;
+        let mut n = 0;
+        for (kk, v) in m.iter(&g) {
+            chk_k(kk, 99, &mut s);
+            chk_v(v, 99, &mut s);
+            n += 1;
+        }
+        assert_eq!(n, len, "len() disagrees with iteration at quiescence");
+    }
+    drop(m);
+    println!(
+        "LITMUS-OK {{\"counters\":{{\"cross_thread_get\":{},\"cross_thread_get_key_value\":{},\"cross_thread_iter\":{},\"cross_thread_keys\":{},\"cross_thread_values\":{},\"cross_thread_insert_old\":{},\"cross_thread_remove\":{},\"cross_thread_remove_entry\":{},\"cross_thread_compute_arg\":{},\"cross_thread_try_insert_current\":{},\"cross_thread_retain_arg\":{},\"cross_thread_reads\":{}}},\"nontrivial\":{},\"sig\":\"{:x}\",\"seed_tag\":\"{}\",\"sample\":{{\"final_len\":{},\"cross_thread_reads\":{}}}}}",
+        tot.get, tot.get_kv, tot.iter, tot.keys, tot.values, tot.insert_old, tot.remove, tot.remove_entry, tot.compute_arg, tot.try_insert_current, tot.retain_arg, tot.total(),
+        tot.total() > 0, tot.sum ^ (len as u64) << 48, tot.sum % 9973, len, tot.total()
+    );
+}
